@@ -67,11 +67,19 @@ CLAIMED = {
             "Translator + proof for the literal tables: tools/extract_num.py re-reads every residue table / special case of Exp.__mod__ and exp_mod_special_cases from tm/num.py on every run and emits one Lean theorem each (BB/Generated/NumTables.lean, 854 obligations, periodicity lemma + decide over one period), so a wrong table entry is a failed proof naming the entry (this is how F7/F8 were found; both repaired by fix: commits). The algebra itself is validated per answer: seeded expression trees built through num.py's own operators, every returned value judged by the Lean evaluator (BB/Model/NumEval.lean); wrong answers are keyed by the num.py return site; the 314 listed sites (comparison heuristics, Num.__eq__ identity, Div on inexact operands) are known findings, any other site is a VIOLATION. The unbounded algebraic claim is not proved.",
             "Trusted: Lean kernel + propext/Classical.choice/Quot.sound (audited by #print axioms on every run); the hand-written L1 model to the extent the correspondence check samples it; Lean compiler for the driver and oracle; vlib orchestration; rustc; CPython 3.12.1; tools/extract_num.py (translator) and tools/num_harness.py.",
             "Lean 4 proofs of translator-extracted tables + per-answer validation by a Lean evaluator", "5/C18"),
+    "C02": ("translation_validation",
+            "The rule prover generalises from four observations, so no universal soundness theorem is true of it; each ANSWER is validated instead. On every run the real run_prover (overflow-checked build) is compared with the Lean model of prover.rs + run_prover (full result record), and every undfnd / spnout / infrul verdict and every rule-free run of the real code is judged against the L0 machine: halting slot, marks, and - when no rule was applied - step count and blank-tape steps. An infrul verdict from a non-negative rule has no certificate in the code's output and is only falsifiable (counted). Lean theorems about a trace validator (BB/Props/C02.lean, when present in the audit) make the per-answer check itself verified.",
+            "Trusted: Lean kernel + propext/Classical.choice/Quot.sound (audited by #print axioms on every run); the hand-written L1 model to the extent the correspondence check samples it; Lean compiler for the driver and oracle; vlib orchestration; rustc. Oracle budget 1e6 (quick) / 2e7 (thorough) base steps; later terminations are counted, not judged.",
+            "per-answer validation against the L0 semantics + differential correspondence with a Lean model of the prover", "5/C02"),
+    "C10": ("exploration",
+            "The real build_tree (through wrappers::tree_progs) is compared, for sizes 2x2..2x4, 3x3 and 5x2 at small limits, both halt flags and a limit ladder, with (i) the Lean model of tree.rs (sorted list, count vs distinct count, single-thread emission order, order-independent hash for trees too large to list), (ii) an independently written sequential reference enumerator (vlib/treeref.py: cell-level tape, availability recomputed from the table, written from the property's sentence) as sorted lists, and (iii) itself under rayon pools of 1,2,3,5,8,16 threads. Lean theorems (BB/Props/C10.lean) are attached to the evidence when present; until they are, this is exploration.",
+            "Trusted: Lean kernel + propext/Classical.choice/Quot.sound (audited by #print axioms on every run); the hand-written L1 model to the extent the correspondence check samples it; Lean compiler for the driver and oracle; vlib orchestration; rustc. Mutual exclusion of the harvester's push is Rust's Mutex (trusted).",
+            "differential correspondence with a Lean model + independent reference enumerator + thread-count sweep", "5/C10"),
 }
 
 ALL = ["C%02d" % i for i in range(1, 19)]
 
-PENDING_REASON = "check not built yet in this revision (work in progress; see DESIGN.md section 10)"
+PENDING_REASON = "check being built in this revision: the validator ops and theorems for per-application validation (checkApp) are not wired yet; see DESIGN.md section 10"
 
 
 def main():
